@@ -887,6 +887,12 @@ class Interp:
             if hasattr(x, "is_none"):
                 return x.is_none()
             return z3.BoolVal(False)
+        for p_, q_ in ((a, b), (b, a)):
+            if isinstance(p_, VElem) and getattr(p_.ty, "const_eq", None) is not None \
+                    and isinstance(q_, (VBool, VInt, VPy)):
+                r = p_.ty.const_eq(p_.t, q_)
+                if r is not None:
+                    return r
         if isinstance(a, VElem) and isinstance(b, VElem) and a.ty.sort == b.ty.sort:
             if a.ty.eq is not None and not identity:
                 return a.ty.eq(a.t, b.t)
@@ -1009,7 +1015,7 @@ class Interp:
         key = ast.unparse(e.func)
         calls = getattr(self.c, "calls", {}) or {}
         if key in calls:
-            args = [self.eval(a) for a in e.args]
+            args = [VStar(self.eval(a.value)) if isinstance(a, ast.Starred) else self.eval(a) for a in e.args]
             kwargs = {k.arg: self.eval(k.value) for k in e.keywords}
             ctx.cur_call = e
             return calls[key](ctx, self, args, kwargs)
@@ -1018,9 +1024,7 @@ class Interp:
         if key == "super":
             self.unsupported(e, "super() without call model")
         f = self.eval(e.func)
-        if any(isinstance(a, ast.Starred) for a in e.args):
-            self.unsupported(e, "star args")
-        args = [self.eval(a) for a in e.args]
+        args = [VStar(self.eval(a.value)) if isinstance(a, ast.Starred) else self.eval(a) for a in e.args]
         kwargs = {k.arg: self.eval(k.value) for k in e.keywords}
         ctx.cur_call = e
         if isinstance(f, VFunc):
@@ -1042,6 +1046,10 @@ class Interp:
         names = ([ast.unparse(x) for x in cls_node.elts]
                  if isinstance(cls_node, ast.Tuple) else [ast.unparse(cls_node)])
         if isinstance(obj, VElem):
+            insp = getattr(obj.ty, "on_inspect", None)
+            if insp is not None:
+                for f in insp(obj.t):
+                    ctx.assume(f)
             tests = []
             for n in names:
                 if n not in obj.ty.classes:
